@@ -38,13 +38,23 @@ CANON = b"GET /alive HTTP/1.1\r\nHost: probe\r\n\r\n"
 
 
 class App:
-    def __init__(self):
+    def __init__(self, streaming=False):
         self.calls = 0
         self.paths = []
+        self.streaming = streaming
 
     def __call__(self, environ, start_response):
         self.calls += 1
         self.paths.append(environ.get("RAW_URI"))
+        if self.streaming and environ.get("RAW_URI") != "/alive":
+            # answers while it is still taking the upload: a broken body is met after the response has started - all the
+            # server can do then is cut the response short (a second status line inside it is not an error reply)
+            def gen():
+                yield b"begin;"
+                environ["wsgi.input"].read()
+                yield b"ok"
+            start_response("200 OK", [])
+            return gen()
         environ["wsgi.input"].read()          # whole body first: a broken body fails here
         body = b"alive" if environ.get("RAW_URI") == "/alive" else b"ok"
         start_response("200 OK", [("Content-Length", str(len(body)))])
@@ -94,7 +104,9 @@ def judge(case, out, app, probe):
         res = ref_resp.parse(data, methods, closed=out["eof"])
         if res.problem == "interim-without-final":
             res.problem = None
-        if res.problem is not None:
+        if res.problem in ("truncated-chunked", "truncated-body") and app.streaming and app.calls and out["eof"]:
+            run_note = "cut"        # a response that had started was cut short and the connection closed: detectable, allowed
+        elif res.problem is not None:
             v.append(("malformed-reply/" + res.problem, "%s %s | wire=%s" % (res.problem, res.detail, hexs(data[:300]))))
         else:
             errs = [i for i, rp in enumerate(res.responses) if rp.status >= 400]
@@ -129,7 +141,9 @@ def run_case(run, e2, harnesses, case):
         if case.get("statsd"):
             cs["statsd_host"] = "127.0.0.1:18125"      # instrumentation on: the Statsd logger sits in the access-log path
         h = harnesses[key] = e2.Harness(case["kind"], cs)
-    app = App()
+    app = App(streaming=bool(case.get("streaming_app")))
+    if app.streaming:
+        run.count("streaming_application_cases")
     stream = bytes.fromhex(case["stream"])
     mode = case["mode"]
     peer = {"unix": "", "unixb": b"", "tcp6": ("::1", 50001, 0, 0)}.get(case.get("peer"), ("127.0.0.1", 50000))
@@ -519,7 +533,11 @@ def shard(sh):
                     # arrive or the keep-alive timer fires (2 s): nothing wrong for C05, just slow - half-close instead
                     mode = "halfclose"
                 case = {"stream": s.hex(), "mode": mode, "kind": kind, "partial_read": rng.choice([1, 20, 500]),
-                        "peer": rng.choice(["tcp", "tcp", "unix", "unixb", "tcp6"]), "statsd": rng.random() < 0.25}
+                        "peer": rng.choice(["tcp", "tcp", "unix", "unixb", "tcp6"]), "statsd": rng.random() < 0.25,
+                        # PROXY protocol switched on, the (allowed) peer just does not send the optional line
+                        "proxy": rng.random() < 0.2, "streaming_app": rng.random() < 0.3}
+                if case["proxy"]:
+                    run.count("proxy_protocol_on_without_proxy_line")
                 one(case)
                 if k < 1:
                     run.sample({"class": "hostile grammar", "input": hexs(s[:300]), "mode": mode})
@@ -553,7 +571,7 @@ def shard(sh):
 def main(tier, seed):
     run = Run(PROP, tier, seed, "fault_enumeration", RULE)
     run.require("ref_rejected_inputs", "truncated_inputs", "error_replies_seen", "silent_closes_seen", "mode/halfclose",
-                "mode/hold", "mode/trickle", "mode/close", "mode/close_pending", "liveness_probes", "fd_checks", "peer/unix", "peer/tcp", "peer/tcp6", "statsd_configured_cases")
+                "mode/hold", "mode/trickle", "mode/close", "mode/close_pending", "liveness_probes", "fd_checks", "peer/unix", "peer/tcp", "peer/tcp6", "statsd_configured_cases", "proxy_protocol_on_without_proxy_line", "streaming_application_cases")
     q = tier == "quick"
     shards = [{"kind": "prefix", "sub": i, "of": 22, "seed": seed, "tier": tier} for i in range(22)]
     shards += [{"kind": "hostile", "n": 1200 if q else 20000, "sub": i, "seed": seed, "tier": tier} for i in range(12 if q else 32)]
